@@ -24,7 +24,10 @@ Theorem C07_page : forall nid q size tok d, (0 <= size)%Z -> tok <> TokMalformed
     else ROk (firstn k A, TokId (r_shard (last (firstn k A) dummy_row))).
 Proof. exact get_spec. Qed.
 (* a malformed token is rejected (and the handlers answer 400, see Store/Api.status_of) *)
-Theorem C07_bad_token : forall nid q size d, GetRelationTuples nid q size TokMalformed d = RErr E_BadToken.
-Proof. reflexivity. Qed.
+Theorem C07_bad_token : forall nid q size d, (0 <= size)%Z -> GetRelationTuples nid q size TokMalformed d = RErr E_BadToken.
+Proof. exact get_bad_token. Qed.
+(* a negative page size is rejected too (fix D19) *)
+Theorem C07_negative_size : forall nid q size tok d, (size < 0)%Z -> GetRelationTuples nid q size tok d = RErr E_BadRequest.
+Proof. exact get_negative_size. Qed.
 Theorem C07_default_page_size_positive : 1 <= defaultPageSize.
 Proof. exact page_size_pos. Qed.
